@@ -15,6 +15,7 @@ def opt(name, default):
 seeds = opt('--seeds', 'all')
 checks_opt = opt('--checks', 'all')
 jobs = int(opt('--jobs', '4'))
+SRC = opt('--src', '/verif')  # where the checks are copied from (a committed snapshot keeps a long sweep independent of edits)
 tier = opt('--tier', 'quick')
 store = '--no-store' not in args
 env = dict(os.environ, GOFLAGS='-mod=mod', GOPROXY='off', GOSUMDB='off', GOTOOLCHAIN='local')
@@ -39,7 +40,7 @@ def one(seed):
         rc, out = sh(f'git apply /verif/seeded/{seed}/patch.diff', wt)
         if rc != 0:
             return seed, {'error': 'patch does not apply: ' + out}
-        sh(f'rsync -a --exclude bin --exclude .work --exclude replays --exclude .git /verif/ {vc}/')
+        sh(f'rsync -a --exclude bin --exclude .work --exclude replays --exclude .git {SRC}/ {vc}/')
         cs = all_checks if checks_opt == 'all' else ([prop] if checks_opt == 'own' else checks_opt.split(','))
         e = dict(env, VERIF_REPO=wt)
         res = {}
